@@ -555,7 +555,7 @@ def hang_class(args):
     return None
 
 
-def check_calc_topology(ctx, kind, arg, ncmd, nmal, rng, corpus_cmds=(), nstdin=0):
+def check_calc_topology(ctx, kind, arg, ncmd, nmal, rng, corpus_cmds=(), nstdin=0, boundary_lines=False):
     """everything about hwloc-calc on one topology"""
     run = ctx.run
     calc = ctx.tools["hwloc-calc"]
@@ -646,6 +646,9 @@ def check_calc_topology(ctx, kind, arg, ncmd, nmal, rng, corpus_cmds=(), nstdin=
             else:
                 cross_single(ctx, tool, ref, kind, arg, base)
         # ---- stdin mode
+        if nstdin and boundary_lines:
+            for case in stdin_boundary_cases(info, rng):
+                check_stdin_case(ctx, info, ref, rootsets, kind, arg, tool, case, rng, model_cases)
         for _ in range(nstdin):
             case = G.gen_stdin_case(rng, info, mem=rng.random() < (0.7 if cpuless else 0.35), hang=hang_class)
             check_stdin_case(ctx, info, ref, rootsets, kind, arg, tool, case, rng, model_cases)
@@ -1283,6 +1286,154 @@ def check_diff_patch_disallowed(ctx, rng, tag):
                 ctx.violation("patch-disallowed-reverse-fails:%d:%s" % (k, ek), "hwloc-patch -R rc=%d: %s" % (rc, desc), rtxt)
 
 
+BOUNDARIES = (4096, 8192, 16384, 65536)
+
+
+def check_stdin_boundaries(ctx, rng):
+    """every tool input that can come from stdin, at sizes straddling the tools' (and the XML backends') internal
+    buffer boundaries: the diff of hwloc-patch given as "-", XML topologies given as "-i -" to lstopo and hwloc-calc"""
+    lst, dif, pat, calc = (ctx.tools[k] for k in ("lstopo-no-graphics", "hwloc-diff", "hwloc-patch", "hwloc-calc"))
+    env = tool_env()
+    # ---- A. hwloc-diff A B | hwloc-patch A - O, with the diff size on each side of 4 KiB, 8 KiB, 16 KiB, 64 KiB
+    syn = "numa:520 pu:1"
+    fa = os.path.join(ctx.tmp, "sbA.xml")
+    rc, out, err = run_tool(lst, ["-i", syn, "--of", "xml", fa], timeout=60)
+    if rc == 0 and os.path.exists(fa):
+        xa = open(fa, "rb").read().decode("latin-1")
+        mems = list(re.finditer(r'local_memory="(\d+)"', xa))
+
+        def make_b(digits):
+            xb, last = [], 0
+            for m, dg in zip(mems, digits):
+                xb.append(xa[last:m.start(1)])
+                xb.append("7" * dg)
+                last = m.end(1)
+            xb.append(xa[last:])
+            return "".join(xb)
+
+        def diff_of(digits, name):
+            fb = os.path.join(ctx.tmp, name)
+            open(fb, "w", encoding="latin-1").write(make_b(digits))
+            rc, out, err = run_tool(dif, [fa, fb], timeout=60)
+            return fb, rc, out
+        # size model: header + per-hunk sizes, measured
+        _, _, d1 = diff_of([1] * 1, "sbB-probe1.xml")
+        _, _, d2 = diff_of([1] * 100, "sbB-probe2.xml")
+        per = (len(d2) - len(d1)) / 99.0 if len(d2) > len(d1) else 140.0
+        targets = [b + d for b in BOUNDARIES for d in (-1, 0, 1)]
+        got_sizes = []
+        for t in targets:
+            n = max(1, min(len(mems), int((t - (len(d1) - per)) / (per + 2))))
+            fb, rc, dtxt = diff_of([1] * n, "sbB-%d.xml" % t)
+            # shrink until below the target with 1-digit values, then add digits
+            while n > 1 and len(dtxt) > t:
+                n -= 1
+                fb, rc, dtxt = diff_of([1] * n, "sbB-%d.xml" % t)
+            extra = t - len(dtxt)
+            digits = [1] * n
+            i = 0
+            while extra > 0 and i < n:
+                add = min(17, extra)
+                digits[i] += add
+                extra -= add
+                i += 1
+            fb, rc, dtxt = diff_of(digits, "sbB-%d.xml" % t)
+            got_sizes.append(len(dtxt))
+            if rc != 0:
+                ctx.bump("stdin-boundary-diff-refused")
+                continue
+            fd = os.path.join(ctx.tmp, "sbD-%d.xml" % t)
+            open(fd, "wb").write(dtxt)
+            fo1 = os.path.join(ctx.tmp, "sbO1-%d.xml" % t)
+            fo2 = os.path.join(ctx.tmp, "sbO2-%d.xml" % t)
+            rc1, o1, e1 = run_tool(pat, [fa, fd, fo1], timeout=60)
+            rc2, o2, e2 = run_tool(pat, [fa, "-", fo2], stdin=dtxt, timeout=60)
+            ctx.count("patch-stdin|%d|%d|%d" % (len(dtxt), rc1, rc2), nontrivial=True, kind="patch-diff-on-stdin",
+                      sample={"diff_bytes": len(dtxt), "hunks": n, "rc_file": rc1, "rc_stdin": rc2})
+            rtxt = ("kind: input\ntool: hwloc-patch\nrecipe: lstopo-no-graphics -i \"%s\" --of xml A.xml ; B.xml = A.xml with the local_memory of the first %d "
+                    "NUMA nodes changed to %s ; hwloc-diff A.xml B.xml | hwloc-patch A.xml - O.xml   (the diff on stdin is %d bytes)\n"
+                    % (syn, n, ",".join("7" * d for d in digits[:8]) + ("..." if n > 8 else ""), len(dtxt)))
+            if crashed(rc2, e2):
+                ctx.violation("crash:patch-stdin:%d" % len(dtxt), "hwloc-patch crashed reading a %d-byte diff on stdin" % len(dtxt), rtxt + e2.decode(errors="replace")[-1500:])
+            elif rc1 != 0:
+                ctx.violation("patch-file-fails:%d" % len(dtxt), "hwloc-patch rc=%d on a %d-byte diff file" % (rc1, len(dtxt)), rtxt)
+            elif rc2 != 0 or not os.path.exists(fo2) or open(fo1, "rb").read() != open(fo2, "rb").read():
+                ctx.violation("patch-stdin-differs:%d" % len(dtxt),
+                              "hwloc-patch with the %d-byte diff on stdin (rc=%d) does not produce what it produces with the same diff in a file (rc=%d): %s"
+                              % (len(dtxt), rc2, rc1, e2.decode(errors="replace")[-200:]), rtxt)
+            else:
+                r1, r2 = Ref(ctx.refexe), Ref(ctx.refexe)
+                try:
+                    if r1.ask("topo diff xml " + fo2) != r2.ask("topo diff xml " + fb):
+                        ctx.violation("patch-stdin-not-B:%d" % len(dtxt), "hwloc-diff A B | hwloc-patch A - O: O != B (diff of %d bytes)" % len(dtxt), rtxt)
+                    else:
+                        ctx.bump("patch-diff-on-stdin-equal")
+                finally:
+                    r1.close()
+                    r2.close()
+        ctx.run.cov["diff_on_stdin_sizes"] = got_sizes
+    # ---- B. XML topology on stdin (-i - --if xml): lstopo and hwloc-calc, libxml and nolibxml readers
+    fx = os.path.join(ctx.tmp, "sbX.xml")
+    rc, out, err = run_tool(lst, ["-i", "pack:2 core:2 pu:2", "--of", "xml", fx])
+    if rc == 0 and os.path.exists(fx):
+        x = open(fx, "rb").read()
+        m = re.search(rb'<object type="Machine"[^>]*>\n', x)
+        sizes = []
+        for t in [b + d for b in (4096, 8192, 65536) for d in (-1, 0, 1)]:
+            pad = t - len(x) - len(b'    <info name="Pad" value=""/>\n')
+            if not m or pad < 0:
+                continue
+            xt = x[:m.end()] + b'    <info name="Pad" value="' + b"p" * pad + b'"/>\n' + x[m.end():]
+            sizes.append(len(xt))
+            fxt = os.path.join(ctx.tmp, "sbX-%d.xml" % t)
+            open(fxt, "wb").write(xt)
+            for libxml in ("1", "0"):
+                e = dict(env, HWLOC_LIBXML=libxml)
+                o_file = os.path.join(ctx.tmp, "sbXo-%d-%s-f.xml" % (t, libxml))
+                o_in = os.path.join(ctx.tmp, "sbXo-%d-%s-i.xml" % (t, libxml))
+                r1 = C.sh([lst, "-i", fxt, "--if", "xml", "--of", "xml", o_file], env=e, timeout=60)
+                r2 = C.sh([lst, "-i", "-", "--if", "xml", "--of", "xml", o_in], env=e, input=xt, timeout=60)
+                c1 = C.sh([calc, "-i", fxt, "--if", "xml", "all", "-N", "pu"], env=e, timeout=60)
+                c2 = C.sh([calc, "-i", "-", "--if", "xml", "all", "-N", "pu"], env=e, input=xt, timeout=60)
+                ctx.count("xml-stdin|%d|%s|%d|%d" % (len(xt), libxml, r1[0], r2[0]), nontrivial=True, kind="xml-on-stdin",
+                          sample={"xml_bytes": len(xt), "libxml": libxml})
+                rtxt = "kind: input\ntool: lstopo-no-graphics\nrecipe: XML of \"pack:2 core:2 pu:2\" with a Pad info making the file %d bytes ; HWLOC_LIBXML=%s lstopo-no-graphics -i - --if xml --of xml out.xml < file\n" % (len(xt), libxml)
+                if crashed(r2[0], r2[2]) or crashed(c2[0], c2[2]):
+                    ctx.violation("crash:xml-stdin:%d:%s" % (len(xt), libxml), "a tool crashed reading a %d-byte XML on stdin" % len(xt), rtxt + (r2[2] + c2[2]).decode(errors="replace")[-1500:])
+                elif r1[0] != 0 or r2[0] != 0 or not os.path.exists(o_in) or open(o_file, "rb").read() != open(o_in, "rb").read():
+                    ctx.violation("xml-stdin-differs:%d:%s" % (len(xt), libxml), "lstopo -i - (XML of %d bytes on stdin, HWLOC_LIBXML=%s) rc=%d differs from the same XML given as a file rc=%d" % (len(xt), libxml, r2[0], r1[0]), rtxt)
+                elif c1[0] != 0 or (c1[0], c1[1]) != (c2[0], c2[1]):
+                    ctx.violation("xml-stdin-calc-differs:%d:%s" % (len(xt), libxml), "hwloc-calc -i - (XML of %d bytes on stdin) prints %r rc=%d, with the file %r rc=%d" % (len(xt), c2[1], c2[0], c1[1], c1[0]), rtxt)
+                else:
+                    ctx.bump("xml-on-stdin-equal")
+        ctx.run.cov["xml_on_stdin_sizes"] = sizes
+
+
+def stdin_boundary_cases(info, rng):
+    """hwloc-calc stdin lines whose length straddles its line buffer (64 bytes, doubled as needed: fgets gets 63, 127, 255... characters)"""
+    cases = []
+    for limit in (63, 127, 255):
+        for d in (-1, 0, 1, 2):
+            target = limit + d
+            locs = []
+            text = ""
+            while True:
+                it = [x for x in G.gen_cmdline(rng, info)["ast"] if x[0] == "loc"][0]
+                t = G.loc_text(it)
+                if len(text) + len(t) + 1 > target:
+                    break
+                locs.append(it)
+                text += (" " if text else "") + t
+            if not locs:
+                continue
+            text += " " * (target - len(text))              # trailing blanks: skipped by strtok
+            other = [x for x in G.gen_cmdline(rng, info)["ast"] if x[0] == "loc"][:2]
+            lines = [locs, other, locs]
+            texts = [text, " ".join(G.loc_text(x) for x in other), text]
+            cases.append({"args": [], "opts": [], "lines": lines, "line_texts": texts, "stdin": "\n".join(texts) + "\n", "out": ("set",)})
+    return cases
+
+
 def edit_xml(rng, x):
     """value-level edits hwloc-diff can express (info values, object names, memory / cache sizes)"""
     edits = []
@@ -1633,7 +1784,7 @@ def check(run, replay=None):
             r = random.Random(seeds[i])
             tag = "t%d" % i
             cc = [dict(c, out=("corpus",)) for c in corpus if c["kind"] == kind and c["arg"] == arg and c.get("tool") != "hwloc-info"]
-            res = check_calc_topology(ctx, kind, arg, ncmd, nmal, r, corpus_cmds=cc, nstdin=nstdin)
+            res = check_calc_topology(ctx, kind, arg, ncmd, nmal, r, corpus_cmds=cc, nstdin=nstdin, boundary_lines=(i < 2 or (thorough and i % 5 == 0)))
             if res:
                 run_model(ctx, kind, arg, res[0], res[1], tag)
             if i % 2 == 0 or thorough:
@@ -1665,7 +1816,8 @@ def check(run, replay=None):
         with concurrent.futures.ThreadPoolExecutor(max_workers=max(4, C.NCPU)) as ex:
             drng = random.Random(rng.getrandbits(64))
             futs = [ex.submit(one, i) for i in range(len(topos))] + [ex.submit(check_lstopo_long_synthetic, ctx, lrng),
-                                                                      ex.submit(check_diff_patch_disallowed, ctx, drng, "dis")]
+                                                                      ex.submit(check_diff_patch_disallowed, ctx, drng, "dis"),
+                                                                      ex.submit(check_stdin_boundaries, ctx, random.Random(rng.getrandbits(64)))]
             for f in futs:
                 f.result()
         run.cov["topologies"] = {"synthetic": sum(1 for t in topos if t[0] == "synthetic"), "xml": sum(1 for t in topos if t[0] == "xml")}
